@@ -4,6 +4,7 @@ package ring
 
 import (
 	"fmt"
+	"sync/atomic"
 	"time"
 
 	"github.com/bluenviron/gortsplib/v5/pkg/ringbuffer"
@@ -51,6 +52,18 @@ func wouldBlock(r *ringbuffer.RingBuffer) bool {
 	}
 	return true
 }
+
+// stuckCount counts time-outs (a blocked Pull / Close / consumer).  Each one costs seconds, so after
+// a few of them the remaining blocking-prone cases are skipped (the violation is already recorded).
+var stuckCount atomic.Int32
+
+// sawPanic: a ring operation panicked in a sequential case; the Processor / concurrent parts (where a
+// panic in the consumer goroutine would kill the process and lose the report) are then skipped.
+var sawPanic atomic.Bool
+
+func stuck() { stuckCount.Add(1) }
+
+func tooStuck() bool { return stuckCount.Load() >= 3 }
 
 func viol(c *corr.Ctx, in any, clause, key, detail string) {
 	c.Violate(corr.Violation{Property: "C16", Clause: clause, Key: key, Where: "pkg/ringbuffer", Input: in, Detail: detail})
@@ -185,12 +198,19 @@ func runSeq(c *corr.Ctx, sc *SeqCase, name string) {
 			panic("bad op " + op.K)
 		}
 	}
+	if n := len(cs.Impl); n > 0 && cs.Impl[n-1] == "panic" && sc.Size > 0 {
+		sawPanic.Store(true)
+		viol(c, sc, "operations on a ring of capacity >= 1 do not panic", "ring-panic", fmt.Sprintf("operation %d panicked", n-2))
+	}
 	c.Add(cs)
 }
 
 // checkBlockingPull: on a ring where Pull must wait, a real Pull (in a goroutine) does not return
 // until a Push / Close happens, and then returns promptly with the right value.
 func checkBlockingPull(c *corr.Ctx, size uint64, prefill int, wakeByClose bool) {
+	if tooStuck() {
+		return
+	}
 	in := map[string]any{"kind": "blocking-pull", "size": size, "prefill": prefill, "wake_by_close": wakeByClose}
 	r, err := ringbuffer.New(size)
 	if err != nil {
@@ -207,6 +227,11 @@ func checkBlockingPull(c *corr.Ctx, size uint64, prefill int, wakeByClose bool) 
 	}
 	ch := make(chan res, 1)
 	go func() {
+		defer func() {
+			if e := recover(); e != nil {
+				ch <- res{fmt.Sprintf("panic: %v", e), false}
+			}
+		}()
 		v, ok := r.Pull()
 		ch <- res{v, ok}
 	}()
@@ -223,11 +248,12 @@ func checkBlockingPull(c *corr.Ctx, size uint64, prefill int, wakeByClose bool) 
 	}
 	select {
 	case x := <-ch:
-		if wakeByClose && x.ok || !wakeByClose && (!x.ok || x.v.(int) != 7) {
+		if n, isInt := x.v.(int); wakeByClose && x.ok || !wakeByClose && (!x.ok || !isInt || n != 7) {
 			viol(c, in, "a waiting consumer is woken by a push or a close and sees its effect", "ring-wrong-wakeup", fmt.Sprintf("woken Pull returned (%v,%v)", x.v, x.ok))
 		}
-	case <-time.After(5 * time.Second):
-		viol(c, in, "a waiting consumer is always woken by a push or a close", "ring-lost-wakeup", "Pull still blocked 5 s after Push/Close")
+	case <-time.After(3 * time.Second):
+		stuck()
+		viol(c, in, "a waiting consumer is always woken by a push or a close", "ring-lost-wakeup", "Pull still blocked 3 s after Push/Close")
 	}
 	c.CountOnly(fmt.Sprintf("blocking-pull %d %d %v", size, prefill, wakeByClose), true)
 	c.Dist("blocking-pull")
